@@ -170,7 +170,18 @@ def paths(fn, max_paths=4000, max_loop=1):
                         val = a_        # (small values survive every integer cast unchanged)
             elif rv["k"] == "agg":
                 # the aggregate built on *this* path (its variant is exact even where the expression engine would join paths)
-                val = ("val", norm(ex.rvalue(rv, (bb, si))))
+                e_ = norm(ex.rvalue(rv, (bb, si)))
+                if e_[0] == "agg" and len(e_[3]) == len(rv.get("ops") or ()):
+                    # ... and so are its scalar fields: a field whose value the expression engine can only give as a join of the
+                    # paths' values (`mode` patched on one branch) is the constant this path computed
+                    flds_ = []
+                    for (fn_, fe_), op_ in zip(e_[3], rv["ops"]):
+                        sy_ = _sym_of_operand(fn, env, op_)
+                        if sy_ is not None and sy_[0] == "const" and fe_[0] in ("phi", "bin") and isinstance(sy_[1], int):
+                            fe_ = ("const", "int", sy_[1])
+                        flds_.append((fn_, fe_))
+                    e_ = ("agg", e_[1], e_[2], tuple(flds_))
+                val = ("val", e_)
             if val is not None:
                 env[pl["l"]] = val
             else:
@@ -188,7 +199,10 @@ def paths(fn, max_paths=4000, max_loop=1):
             return
         if t["k"] == "return":
             r = None
-            if lastret is not None and retval[0] is not None:
+            ev0 = env.get(0)
+            if lastret is not None and ev0 is not None and ev0[0] == "val" and ev0[1][0] == "agg" and retval[0] is None:
+                r = ev0[1]      # the aggregate returned was built on this very path
+            elif lastret is not None and retval[0] is not None:
                 r = retval[0]
             elif lastret is not None:
                 st = fn.blocks[lastret[0]]["stmts"][lastret[1]]
@@ -207,6 +221,10 @@ def paths(fn, max_paths=4000, max_loop=1):
             effects = effects + [(bb, callee, args, to_ret, callx, len(visited), csts)]
             if not t["dest"]["p"]:
                 env[t["dest"]["l"]] = ("expr", show(callx))
+                if t.get("ret_variant") in ("Ok", "Err", "Some", "None"):
+                    # every return of the (crate-local) callee builds this variant
+                    fam_ = "std::option::Option" if t["ret_variant"] in ("Some", "None") else "std::result::Result"
+                    env[t["dest"]["l"]] = ("val", ("agg", "adt:" + t["ret_variant"], fam_, (("0", callx),) if t["ret_variant"] != "None" else ()))
                 if callee.endswith("FromResidual::from_residual"):
                     env[t["dest"]["l"]] = ("val", callx)
                 elif callee.endswith("Try::branch") and t["args"] and t["args"][0]["k"] != "const" and not t["args"][0]["place"]["p"]:
